@@ -2909,26 +2909,21 @@ func (p *Posix) PutObject(ctx context.Context, po s3response.PutObjectInput) (s3
 		}
 	}
 
-	err = f.link()
-	if errors.Is(err, syscall.EEXIST) {
-		return s3response.PutObjectOutput{
-			ETag:      etag,
-			VersionID: versionID,
-		}, nil
-	}
-	if err != nil {
-		return s3response.PutObjectOutput{}, s3err.GetAPIError(s3err.ErrExistingObjectIsDirectory)
-	}
-
-	// Set object legal hold
-	if po.ObjectLockLegalHoldStatus == types.ObjectLockLegalHoldStatusOn {
-		err := p.PutObjectLegalHold(ctx, *po.Bucket, *po.Key, "", true)
+	// Set object legal hold and retention: like every other attribute they
+	// go onto the temp file, so that the object never appears without the
+	// protection that was requested for it
+	if po.ObjectLockLegalHoldStatus == types.ObjectLockLegalHoldStatusOn || po.ObjectLockMode != "" {
+		err := p.isBucketObjectLockEnabled(*po.Bucket)
 		if err != nil {
 			return s3response.PutObjectOutput{}, err
 		}
 	}
-
-	// Set object retention
+	if po.ObjectLockLegalHoldStatus == types.ObjectLockLegalHoldStatusOn {
+		err := p.meta.StoreAttribute(f.File(), *po.Bucket, *po.Key, objectLegalHoldKey, []byte{1})
+		if err != nil {
+			return s3response.PutObjectOutput{}, fmt.Errorf("set object legal hold: %w", err)
+		}
+	}
 	if po.ObjectLockMode != "" {
 		retention := types.ObjectLockRetention{
 			Mode:            types.ObjectLockRetentionMode(po.ObjectLockMode),
@@ -2938,10 +2933,21 @@ func (p *Posix) PutObject(ctx context.Context, po s3response.PutObjectInput) (s3
 		if err != nil {
 			return s3response.PutObjectOutput{}, fmt.Errorf("parse object lock retention: %w", err)
 		}
-		err = p.PutObjectRetention(ctx, *po.Bucket, *po.Key, "", true, retParsed)
+		err = p.meta.StoreAttribute(f.File(), *po.Bucket, *po.Key, objectRetentionKey, retParsed)
 		if err != nil {
-			return s3response.PutObjectOutput{}, err
+			return s3response.PutObjectOutput{}, fmt.Errorf("set object retention: %w", err)
 		}
+	}
+
+	err = f.link()
+	if errors.Is(err, syscall.EEXIST) {
+		return s3response.PutObjectOutput{
+			ETag:      etag,
+			VersionID: versionID,
+		}, nil
+	}
+	if err != nil {
+		return s3response.PutObjectOutput{}, s3err.GetAPIError(s3err.ErrExistingObjectIsDirectory)
 	}
 
 	return s3response.PutObjectOutput{
